@@ -471,7 +471,12 @@ class XMLReader(object):
 
         if insert_children:
             for child in children:
-                obj.append(child)
+                # A child can be refused, e.g. when a sibling with the
+                # same name has already been added.
+                try:
+                    obj.append(child)
+                except Exception as exc:
+                    self.error(str(exc), root)
 
         return obj
 
